@@ -88,7 +88,7 @@ def _report_walk(rep, consts, acts, div, met):
                     "divergence": _fmt(div)})
 
 
-def replay_graph(ctx, consts, rep, max_walks=None, check=True):
+def replay_graph(ctx, consts, rep, max_walks=None, check=True, label="v12_graph"):
     from harness.replay import poolv12 as rv
     cfg = tlc.write_cfg(os.path.join(ctx.scratch, "v12_graph.cfg"), constants=consts, invariants=INV if check else (),
                         properties=PROPS if check else (), deadlock=False)
@@ -143,11 +143,11 @@ def replay_graph(ctx, consts, rep, max_walks=None, check=True):
     ctx.traces_validated += clean
     ctx.count("v12_behaviours_replayed", len(walks))
     ctx.count("v12_behaviours_replayed_without_divergence", clean)
-    ctx.note("v12_graph", {"constants": name(consts), "edges": len(all_edges), "edges_replayed": len(covered),
+    ctx.note(label, {"constants": name(consts), "edges": len(all_edges), "edges_replayed": len(covered),
                            "cover_walks_needed": total, "cover_walks_replayed": len(walks),
                            "exhaustive": len(covered) == len(all_edges), "flipped_expectation_noticed": bool(selftest)})
     if met_counts:
-        ctx.note("v12_known_leak_steps_met_and_repaired", met_counts)
+        ctx.note(label + "_known_leak_steps_met_and_repaired", met_counts)
     return len(walks)
 
 
@@ -230,7 +230,8 @@ def run(ctx):
                        {"kind": "spec", "trace": [dict(s.get("act", {})) for _, s in res.trace()]})
             return rep.finish()
         witnesses(ctx, V_MID)
-        n = replay_graph(ctx, V_MID, rep)
+        n = replay_graph(ctx, V_SMALL, rep)                                            # every edge
+        n += replay_graph(ctx, V_MID, rep, max_walks=12000, check=False, label="v12_graph_sampled")
         validate_recorded(ctx, V_MID, 800, rep)
         validate_recorded(ctx, V_BIG, 800, rep, max_events=80)
     rep.finish()
